@@ -107,6 +107,12 @@ CHECKS["C18"] = dict(
    note="Trusted: strings.ToUpper, regexp. Alphabet chosen for case mappings that change the UTF-8 length, have no simple upper case, or sit at the 0x80 boundary; other code points are not covered.",
    design="5/C18")
 
+CHECKS["C17"] = dict(
+   technique="complete enumeration of declared value lists x data columns x construction paths, with boundary families at the bitset words and the 255-value limit; rank-based reference model",
+   text="Every permutation of every subset of three values (and no declaration) x every data column of up to 3 cells incl. null and an undeclared value x construction through New+Enums, ReadCSV+Types/EnumValues, ReadJSON+Enums and ConstString; declared lists of 63..255 values (and 256, 300: rejected) with data on the ranks around every 64-bit bitset word; derived enums of cardinality 1..255 (accepted) and 256, 257, 300 (clean Err). Accepted columns must reproduce the data, compare and sort by declared rank, reject undeclared filter constants, and select exactly the named values with in/like/ilike.",
+   note="Trusted: rank model in model/clause.go and C03's order predicate.",
+   design="5/C17")
+
 NOT_YET = {}
 BASELINE_CMD = "for m in $(cat /w/out/gomods.txt); do MF=$(cd /repo/$m && . /w/out/goenv.sh && gomodflag); (cd /repo/$m && go test $MF -json -vet=off -count=1 -timeout 25m ./...); done"
 
